@@ -108,7 +108,7 @@ var plans = map[string]plan{
 	"C07": {
 		Quick:       tierPlan{Shards: 16, Checks: 6, Shrink: "60s", Limit: 30 * time.Minute},
 		Thorough:    tierPlan{Shards: 16, Checks: 150, Shrink: "5m", Limit: 4 * time.Hour},
-		Rule:        "each case is a history of 2-6 (thorough 2-10) edits over a generated package (a struct with 1-4 fields, a map type, 1-4 derive calls incl. nested ones whose argument type is the result type of another derive call: deriveSort(deriveKeys(m)), deriveUnique(deriveSort(l)), deriveHash(deriveSort(deriveKeys(m))) ..., optionally one call in a _test file): retype / add / remove a field, add / remove / re-target a call, change the type that flows between derive calls, rename the struct type, remove every call; after each edit, optionally, derived.gen.go is replaced by the first k bytes of the previous or of the new output (k at structural cut points: inside the header comment, package clause, import block, a signature, a body, or uniform); then goderive runs ONCE; every step is one evaluation; judged: exit 0, file byte-identical to a from-scratch run on a copy of the same sources (absent in both when no calls remain), final state type-checks; non-trivial = step whose old derived file is stale for a type used by a call, or truncated; distinct by (sources, old file)",
+		Rule:        "each case is a history of 2-6 (thorough 2-10) edits over a generated package (a struct with 1-4 fields, a map type, 1-4 derive calls incl. nested ones whose argument type is the result type of another derive call: deriveSort(deriveKeys(m)), deriveUnique(deriveSort(l)), deriveHash(deriveSort(deriveKeys(m))) ..., optionally one call in a _test file): retype / add / remove a field, add / remove / re-target a call, change the type that flows between derive calls, rename the struct type, remove every call; after each edit, optionally, derived.gen.go is replaced by the first k bytes of the previous or of the new output (k at structural cut points: inside the header comment, package clause, import block, a signature, a body, or uniform); then goderive runs ONCE; every step is one evaluation; judged: exit 0, file byte-identical to a from-scratch run on a copy of the same sources (absent in both when no calls remain), final state type-checks; non-trivial = step whose old derived file is stale for a type used by a call, or truncated; distinct by (sources, old file); before the histories, a truncation sweep on one fixed pair of versions (v1 -> v2 retypes a field, adds a recursive map field and changes the key type that flows from deriveKeys into deriveSort): derived.gen.go := the first k bytes of the output for v1 or for v2, for every k (thorough, split over the shards) or every 24th k (quick), one run each, compared byte for byte with the from-scratch output for v2",
 		Assumptions: []string{"the from-scratch output is the reference (C08 checks that it is unique)"},
 	},
 	"C19": {
